@@ -236,6 +236,76 @@ theorem icmp6SendPacket_tie (g : Mem) (hm dm smac sip dip msg : Bytes) (sport dp
       (by simp only [List.length_cons, List.length_nil, List.length_append, ip6Hdr, putChecksum, List.length_set];
           omega))
 
+/-! ### the UDP/IPv4 send paths outside the frame region: payload too big for the buffer (no hypothesis on the addresses) -/
+
+/-- payload too big for the pool buffer: the regenerated body and the model both return ErrPayloadTooBig, whatever
+    the address arguments are (`copy` is clipped) -/
+theorem sendDHCP4Packet_too_big_tie (g : Mem) (sm dm sip dip : Bytes) (sp dp : Nat) (pl : Bytes)
+    (hcap : 42 ≤ g.length) (hbig : g.length < 42 + pl.length) :
+    Gen.Send.dhcp4_spoofer_sendDHCP4Packet g sm sip sp dm dip dp pl = sendUDP4 g sm dm 50 sip dip sp dp pl := by
+  rw [sendUDP4_too_big g sm dm sip dip 50 sp dp pl hcap hbig]
+  obtain ⟨E, hE, he⟩ := encodeEther_any g g.length 0x0800 sm dm (by omega)
+  unfold Gen.Send.dhcp4_spoofer_sendDHCP4Packet
+  simp only [encodeEther_tie, encodeIP4_tie, encodeUDP_tie, udpAppendPayload_tie, ip4SetPayload_tie, etherSetPayload_tie]
+  rw [show whole g = ⟨0, g.length⟩ from rfl, he]
+  simp only [bind_ok', encodeIP4]
+  have hs := as4_length sip
+  have hd := as4_length dip
+  generalize as4 sip = S at hs
+  generalize as4 dip = D at hd
+  have hT : 28 ≤ (g.drop 14).length := by simp; omega
+  have hT2 : (g.drop 14).length < 28 + pl.length := by simp; omega
+  generalize g.drop 14 = T at hT hT2
+  cells hE; cells hs; cells hd; cells_le hT
+  simp only [List.length_cons] at hT2
+  simp only [List.cons_append, List.nil_append]
+  send_exec
+  simp (disch := mdisch) only [udpAppendPayload_big, bind_err']
+
+theorem sendNBNS_too_big_tie (g : Mem) (sm dm sip dip : Bytes) (sp dp : Nat) (pl : Bytes)
+    (hcap : 42 ≤ g.length) (hbig : g.length < 42 + pl.length) :
+    Gen.Send.dns_naming_sendNBNS g sm sip sp dm dip dp pl = sendUDP4 g sm dm 255 sip dip 137 137 pl := by
+  rw [sendUDP4_too_big g sm dm sip dip 255 137 137 pl hcap hbig]
+  obtain ⟨E, hE, he⟩ := encodeEther_any g g.length 0x0800 sm dm (by omega)
+  unfold Gen.Send.dns_naming_sendNBNS
+  simp only [encodeEther_tie, encodeIP4_tie, encodeUDP_tie, udpAppendPayload_tie, ip4SetPayload_tie, etherSetPayload_tie]
+  rw [show whole g = ⟨0, g.length⟩ from rfl, he]
+  simp only [bind_ok', encodeIP4]
+  have hs := as4_length sip
+  have hd := as4_length dip
+  generalize as4 sip = S at hs
+  generalize as4 dip = D at hd
+  have hT : 28 ≤ (g.drop 14).length := by simp; omega
+  have hT2 : (g.drop 14).length < 28 + pl.length := by simp; omega
+  generalize g.drop 14 = T at hT hT2
+  cells hE; cells hs; cells hd; cells_le hT
+  simp only [List.length_cons] at hT2
+  simp only [List.cons_append, List.nil_append]
+  send_exec
+  simp (disch := mdisch) only [udpAppendPayload_big, bind_err']
+
+theorem sendSSDPSearch_too_big_tie (g : Mem) (sm dm sip dip : Bytes) (pl : Bytes)
+    (hcap : 42 ≤ g.length) (hbig : g.length < 42 + pl.length) :
+    Gen.Send.dns_naming_SendSSDPSearch g sm dm sip dip pl = sendUDP4 g sm dm 255 sip dip 1900 1900 pl := by
+  rw [sendUDP4_too_big g sm dm sip dip 255 1900 1900 pl hcap hbig]
+  obtain ⟨E, hE, he⟩ := encodeEther_any g g.length 0x0800 sm dm (by omega)
+  unfold Gen.Send.dns_naming_SendSSDPSearch
+  simp only [encodeEther_tie, encodeIP4_tie, encodeUDP_tie, udpAppendPayload_tie, ip4SetPayload_tie, etherSetPayload_tie]
+  rw [show whole g = ⟨0, g.length⟩ from rfl, he]
+  simp only [bind_ok', encodeIP4]
+  have hs := as4_length sip
+  have hd := as4_length dip
+  generalize as4 sip = S at hs
+  generalize as4 dip = D at hd
+  have hT : 28 ≤ (g.drop 14).length := by simp; omega
+  have hT2 : (g.drop 14).length < 28 + pl.length := by simp; omega
+  generalize g.drop 14 = T at hT hT2
+  cells hE; cells hs; cells hd; cells_le hT
+  simp only [List.length_cons] at hT2
+  simp only [List.cons_append, List.nil_append]
+  send_exec
+  simp (disch := mdisch) only [udpAppendPayload_big, bind_err']
+
 /-! ### dns_naming `sendMDNS`: the frame buffer is allocated (`make([]byte, EthMaxSize)`), IPv4 and IPv6 branch -/
 
 theorem sendMDNS4_tie (hm dm smac sip dip : Bytes) (sport dp : Nat) (pl : Bytes) (g : Mem)
